@@ -509,6 +509,12 @@ def gen_specs(ctx, scale):
                 spec['queries'] = make_queries(rng, Ls, Lu, N, bc_MPS_ != 'finite', 4 if not th else 6,
                                                3, extra_dx=1 if rng.random() < 0.2 else 0)
                 spec['queries']['orderings'] = [names[(counter + 1) % len(names)], random_order_spec(cls, dim, Lu, rng, ctor=False)]
+                if dim >= 3 and Lu > 1:
+                    # a priority whose argsort is not its own inverse (needs three spatial directions for a grouped order)
+                    cyc = list(range(1, dim)) + [0]
+                    if counter % 2:
+                        cyc = [cyc.index(a) for a in range(dim)]
+                    spec['queries']['orderings'].append(['grouped', [[u] for u in range(Lu - 1, -1, -1)], cyc + [dim]])
                 specs.append(spec)
     # ---- MultiSpeciesLattice, IrregularLattice, HelicalLattice on top of sampled regular lattices
     base = [s for s in specs if s['cls'] != 'Lattice' or len(s['Ls']) <= 3]
@@ -2154,4 +2160,11 @@ RULE = ('lattices: Chain/Ladder/NLegLadder/Square/Triangular/Honeycomb/Kagome/ge
         'MultiSpeciesLattice over every simple class x 1..3 species with the pairs checked by position and site type; '
         'per lattice all MPS indices (two extra unit cells for infinite), '
         'all lattice indices, all displacement vectors |dx_a| <= L_a (+1) for up to 4 (u1,u2) pairs, random multi-couplings; '
-        'a coupling case is non-trivial when at least one pair exists; distinct = distinct (lattice, query).')
+        'a coupling case is non-trivial when at least one pair exists; distinct = distinct (lattice, query).  '
+        'Per lattice also: other argument forms (list, tuple, numpy integer, 2D/3D index arrays), results of one index map given to the other, '
+        'all queries repeated and the state of the object compared before/after (returned arrays overwritten), strength in three forms, '
+        'two-operator multi couplings against possible_couplings, values/masked values on other axes and with defaults, mps_sites/site, '
+        'with_grouped_sites; options drawn by stratification: bc as one string / list / shift 0, order set again after use (every 7th regular, '
+        'every 5th wrapped lattice), grouped orders with priority, TrivialLattice, generic Lattice with basis/positions, position_disorder, '
+        'find_coupling_pairs(max_dx 1..3, cutoff None/given/defaults), extract_segment defaults and unit-cell-boundary values of last, '
+        'enlarge factor 1/default; coverage of lattice.py statements recorded in every runner process (coverage.lattice_py_coverage).')
